@@ -41,6 +41,7 @@ sexp sexp_json_write_exception (sexp ctx, sexp self, const char* msg, sexp obj) 
 
 sexp json_read_number (sexp ctx, sexp self, sexp in) {
   double res = 0, scale = 1;
+  sexp_uint_t ires = 0, limit = SEXP_MAX_FIXNUM;
   int sign = 1, inexactp = 0, scale_sign = 1, ch;
   ch = sexp_read_char(ctx, in);
   if (ch == '+') {
@@ -48,9 +49,16 @@ sexp json_read_number (sexp ctx, sexp self, sexp in) {
   } else if (ch == '-') {
     ch = sexp_read_char(ctx, in);
     sign = -1;
+    limit++;
   }
-  for ( ; ch != EOF && isdigit(ch); ch = sexp_read_char(ctx, in))
+  for ( ; ch != EOF && isdigit(ch); ch = sexp_read_char(ctx, in)) {
     res = res * 10 + ch - '0';
+    /* integers in the fixnum range are kept exactly */
+    if (ires <= (limit - (ch - '0')) / 10)
+      ires = ires * 10 + ch - '0';
+    else
+      limit = 0;
+  }
   if (ch == '.') {
     inexactp = 1;
     for (ch = sexp_read_char(ctx, in); isdigit(ch); scale *= 10, ch = sexp_read_char(ctx, in))
@@ -70,9 +78,9 @@ sexp json_read_number (sexp ctx, sexp self, sexp in) {
     res *= pow(10.0, scale_sign * scale);
   }
   if (ch != EOF) sexp_push_char(ctx, ch, in);
-  return (inexactp || fabs(res) >= SEXP_MAX_FIXNUM) ?
+  return (inexactp || limit == 0) ?
     sexp_make_flonum(ctx, sign * res) :
-    sexp_make_fixnum(sign * res);  /* always return inexact? */
+    sexp_make_fixnum(sign * (sexp_sint_t)ires);  /* always return inexact? */
 }
 
 sexp json_read_literal (sexp ctx, sexp self, sexp in, char* name, sexp value) {
